@@ -45,6 +45,8 @@ inductive MsgKind where
 def exUnknownMethod : Int := 1
 def exInternalError : Int := 6
 def exProtocolError : Int := 7
+/-- `APPLICATION_EXCEPTION_RESPONSE_TOO_LARGE`. -/
+def exResponseTooLarge : Int := 100
 
 /-- What the body of a reply message is. -/
 inductive PayloadTag where
@@ -93,6 +95,15 @@ structure Args where
   skippable : Bool    -- `iprot.Skip(STRUCT)` + `ReadMessageEnd` return nil
   deriving DecidableEq, Repr
 
+/-- What the output protocol of this request does with the reply. -/
+inductive OutCond where
+  | healthy    -- every write succeeds
+  | tooSmall   -- a bounded buffer (`TMemoryOutputBuffer`, NATS server) that the REPLY message — or, for an
+               -- unknown method, the UNKNOWN_METHOD message echoing the name — does not fit; the overflowing
+               -- write empties the buffer and returns REQUEST_TOO_LARGE. Every other EXCEPTION message fits.
+  | fails      -- the peer is gone: a `Write` or the `Flush` of the reply returns an error
+  deriving DecidableEq, Repr
+
 structure Request where
   hdr : Res Hdrs      -- `readHeader` on the request's header block
   envOk : Bool        -- `ReadMessageBegin` returns nil
@@ -100,6 +111,7 @@ structure Request where
   msgType : Nat       -- read, ignored
   seqid : Int         -- read, ignored
   args : Args
+  out : OutCond
 
 /-- The response headers `ReadRequestHeader` prepares: the op id, and the correlation id if non-empty. -/
 def respHdrs (h : Hdrs) (opid : Bytes) : Hdrs :=
@@ -138,12 +150,24 @@ def process (pm : ProcMap) (rq : Request) (ho : HOutcome) : List ReplyMsg × Res
       if !rq.envOk then ([], .err .other) else        -- ReadMessageBegin failed
       match pm.find? rq.method with
       | none =>
-        -- unknown method: the arguments are skipped when they can be (a failure is logged);
-        -- the caller is answered either way and `Process` returns nil
-        ([mkException h opid rq.method exUnknownMethod], .ok ())
+        -- unknown method: the arguments are skipped when they can be (a failure is logged); the
+        -- caller is answered either way. The message is written under `writeMu`; a failing write
+        -- (dead peer, or the message does not fit a bounded buffer, which is emptied) is returned.
+        match rq.out with
+        | .healthy => ([mkException h opid rq.method exUnknownMethod], .ok ())
+        | _ => ([], .err .other)
       | some ms =>
-        if !rq.args.readable then ([mkException h opid rq.method exProtocolError], .ok ())
-        else (methodReply ms h opid rq.method ho, .ok ())
+        let msgs :=
+          if !rq.args.readable then [mkException h opid rq.method exProtocolError]
+          else methodReply ms h opid rq.method ho
+        match rq.out with
+        | .healthy => (msgs, .ok ())
+        -- SendReply / trapError: the overflowing REPLY is dropped from the (emptied) buffer and
+        -- replaced by one RESPONSE_TOO_LARGE exception
+        | .tooSmall => (msgs.map fun m =>
+            if m.kind = .reply then mkException h opid rq.method exResponseTooLarge else m, .ok ())
+        -- the error of SendReply / SendError is logged by `Process`, which returns nil
+        | .fails => ([], .ok ())
 
 /-- A sequence of requests handled by one processor, each with its handler outcome. The
 processor keeps no state between requests (the process map is read-only after construction). -/
